@@ -4,5 +4,5 @@ CONSTANTS
   DevAvg = FALSE
   DevArr = TRUE
   DevStale = FALSE
-INVARIANTS LengthInv StepOK
+INVARIANTS LengthInv StepOKModKnown
 CHECK_DEADLOCK FALSE
